@@ -16,6 +16,7 @@ import (
 	"database/sql"
 	"flag"
 	"fmt"
+	"math/rand"
 	"os"
 	"path/filepath"
 	"strings"
@@ -44,6 +45,9 @@ type behaviour struct {
 	Buf   int    `json:"buf"`
 	Proc  string `json:"proc"` // rec | l1
 	Steps []step `json:"steps"`
+	// Free: only the moves of the chain (and restarts) are taken from Steps; between them the node is scheduled at random,
+	// whatever order of calls the code under test makes (no gate of the specification is expected)
+	Free bool `json:"free"`
 }
 
 var (
@@ -153,6 +157,29 @@ func (r *run) play(id int, dir string, seed uint64) error {
 	r.n = n
 	if !r.e.await(func() bool { return r.e.find("dl") != nil && r.e.find("rd") != nil }, stuckWait) || !r.settle([]string{"tip", "idle", "fin"}) {
 		return fmt.Errorf("the node did not reach its first gates (dl=%v rd=%v)", r.e.find("dl") != nil, r.e.find("rd") != nil)
+	}
+	if b.Free {
+		rng := rand.New(rand.NewSource(int64(seed*7919 + uint64(id))))
+		for _, s := range b.Steps {
+			switch s.A {
+			case "mine", "finalize", "fork", "restart":
+			default:
+				continue
+			}
+			for k := rng.Intn(7); k > 0 && r.stuck == ""; k-- {
+				r.freeAct(rng)
+			}
+			if r.stuck != "" {
+				break
+			}
+			if err := r.envStep(s, false); err != nil {
+				return err
+			}
+		}
+		for k := rng.Intn(10); k > 0 && r.stuck == ""; k-- {
+			r.freeAct(rng)
+		}
+		b.Steps = nil
 	}
 	for i, s := range b.Steps {
 		if r.drifts > 0 {
@@ -423,6 +450,71 @@ func (r *run) deliver(timeout time.Duration) bool {
 		}
 	case <-time.After(timeout):
 		return false
+	}
+}
+
+// ---------------------------------------------------------------------------------------------- free scheduling
+
+// freeAct lets one randomly chosen goroutine of the node take one step (free mode): a parked call is released, a
+// downloaded block is handed to the driver, or the detector's notification is handed over (only to an idle driver).
+// The detector's removal after an acknowledged reorg always comes first (the tracked list is locked until then).
+func (r *run) freeAct(rng *rand.Rand) {
+	if w := r.e.find("rd"); w != nil && w.key == "acked" {
+		if !r.e.release(w, false, stuckWait) {
+			r.stuck = "hand-over did not finish"
+			return
+		}
+		r.e.await(func() bool { return r.e.find("rd") != nil }, gateWait)
+		return
+	}
+	type opt struct {
+		kind string
+		w    *waiter
+	}
+	var opts []opt
+	drv, g := r.e.find("drv"), r.n.cur()
+	if drv != nil {
+		opts = append(opts, opt{"drv", drv})
+	}
+	if w := r.e.find("rd"); w != nil {
+		if strings.HasPrefix(w.key, "notify") {
+			if drv == nil && atomic.LoadInt32(&r.n.inflight) == 0 {
+				opts = append(opts, opt{"notify", w})
+			}
+		} else {
+			opts = append(opts, opt{"rd", w})
+		}
+	}
+	if w := r.e.find("dl"); w != nil {
+		opts = append(opts, opt{"dl", w})
+	}
+	if g != nil && len(g.chA) > 0 && drv == nil {
+		opts = append(opts, opt{"deliver", nil})
+	}
+	if len(opts) == 0 {
+		r.e.await(func() bool { return r.e.find("drv") != nil || r.e.find("dl") != nil || r.e.find("rd") != nil }, 20*time.Millisecond)
+		return
+	}
+	o := opts[rng.Intn(len(opts))]
+	switch o.kind {
+	case "deliver":
+		if r.deliver(gateWait) {
+			r.e.await(func() bool { return r.e.find("drv") != nil }, gateWait)
+		}
+	case "notify":
+		if !r.e.release(o.w, false, stuckWait) {
+			r.stuck = "hand-over did not finish"
+			return
+		}
+		r.lastDetect = time.Now().Unix()
+		r.e.await(func() bool { return r.e.find("drv") != nil }, gateWait)
+	default:
+		if !r.e.release(o.w, false, stuckWait) {
+			r.stuck = o.kind + " call did not finish"
+			return
+		}
+		// give the released goroutine the time to park again (or to block / to go idle)
+		r.e.await(func() bool { return r.e.find(o.kind) != nil }, 5*time.Millisecond)
 	}
 }
 
